@@ -31,7 +31,7 @@ import (
 //
 // The Go build cache makes the build incremental (-trimpath: cache entries are shared between /repo and
 // scratch copies). Measured on the 16-core sandbox under load: cold ≈ 3 min, after a change in
-// keystore/lru ≈ 16 s, unchanged ≈ 2 s. The quick tier therefore gives the build 45 s and falls back to
+// keystore/lru ≈ 16 s, unchanged ≈ 2 s. The quick tier therefore gives the build 60 s and falls back to
 // the probabilistic in-process check (and says so in the evidence) when that is not enough; the thorough
 // tier waits up to 20 min. The build and the child run in the background while the other modes execute.
 
@@ -131,7 +131,7 @@ var replaceLine = regexp.MustCompile(`(?m)^replace\s+(\S+)\s+=>\s+(\S+)\s*$`)
 // startV1Race starts the race build + run in the background.
 func startV1Race(r *core.Run) *raceJob {
 	rounds, budget := 1000, 15*time.Second
-	buildTimeout := 45 * time.Second
+	buildTimeout := 60 * time.Second
 	if r.Thorough() {
 		rounds, budget, buildTimeout = 6000, 60*time.Second, 20*time.Minute
 	}
